@@ -259,6 +259,7 @@ class Interp:
         self.policy = policy or DefaultPolicy()
         self.models = models or Models()
         self.paths = None
+        self.aborted = []
         self.steps = 0
         self.truncated = False
 
@@ -277,6 +278,7 @@ class Interp:
             v = args[i - 1] if args else ("param", i, has_self and i == 1)
             st.store[("L", 0, i, ())] = v
         self.paths = []
+        self.aborted = []       # paths that end in a certain panic (unwrap of None/Err, diverging call)
         self.root = fpath
         for (s2, ret) in self.exec_body(st, frame, 0):
             self.paths.append(Path(s2.events, ret, s2.facts, s2.variants, s2))
@@ -423,7 +425,7 @@ class Interp:
         if k == "const":
             if "fn" in o:
                 return ("fn", o["fn"]["q"], o["fn"]["def"])
-            return ("const", o["ty"], o.get("int", o.get("v")))
+            return ("const", o["ty"], o.get("int", o.get("float", o.get("v"))))
         return ("unknown", "operand")
 
     def eval_rvalue(self, st, fr, r, site):
@@ -449,7 +451,7 @@ class Interp:
             op = r["op"]
             if op.endswith("WithOverflow"):
                 base = op[: -len("WithOverflow")]
-                return ("agg", "tuple", None, (self.binop(base, a, b, r["ty"]), ("ovf", base, a, b)), ("0", "1"))
+                return ("agg", "tuple", None, (self.binop(base, a, b, r["ty"]), ("ovf", base, a, b, r["ty"])), ("0", "1"))
             return self.binop(op, a, b, r["ty"])
         if k == "un":
             a = self.eval_operand(st, fr, r["a"])
@@ -583,6 +585,8 @@ class Interp:
                     outs = list(self.do_call(st, fr, t, bb))
                     nxt = t["t"]
                     if nxt is None:
+                        for (s2, rv) in outs:
+                            self.aborted.append(Path(s2.events, ("diverged",), s2.facts, s2.variants, s2))
                         break  # diverging call (panic): path ends
                     first = None
                     for (s2, rv) in outs:
@@ -948,6 +952,15 @@ class Models:
                         return 1 if op == "Eq" else 0
                     if not is_eq and const_int(other) == ky:
                         return 0 if op == "Eq" else 1
+        # max(x, c) with a constant c >= 1 is not zero
+        if op in ("Eq", "Ne"):
+            for x, y in ((a, b), (b, a)):
+                if const_int(y) == 0 and isinstance(x, tuple) and x[0] == "call" and (x[2] or "").split("::")[-1] == "max":
+                    for e in reversed(st.events):
+                        if e.get("ev") == "call" and e.get("id") == x[1]:
+                            if any((const_int(arg) or 0) >= 1 for arg in e["args"]):
+                                return 0 if op == "Eq" else 1
+                            break
         # cap != 0 for an inner list of a composite cache (constructors validate, nothing resizes them: C03.R2b)
         if op in ("Eq", "Ne"):
             for x, y in ((a, b), (b, a)):
@@ -1009,6 +1022,20 @@ class Models:
             # sum >= size (and size >= 1 by construction): at least one of the summed lists is non-empty
             st.sumge[root] = tuple((l[1], l[2]) for l in lens)
 
+    def _cap_ge1(self, st, Xm):
+        """cap >= 1: an inner list of a composite (validated at construction, never resized: C03.R2b) or an explicit cap != 0 fact"""
+        if len(Xm[2]) >= 2:
+            return True
+        capt = ("load", ("H", Xm[1], Xm[2][:-1] + ("cap",)), 0)
+        for f in st.facts:
+            if f[0] == "cond" and isinstance(f[1], tuple) and f[1][0] == "bin" and f[1][1] in ("Eq", "Ne") and capt[:2] in (f[1][2][:2] if isinstance(f[1][2], tuple) else None, f[1][3][:2] if isinstance(f[1][3], tuple) else None):
+                other = f[1][3] if (isinstance(f[1][2], tuple) and f[1][2][:2] == capt[:2]) else f[1][2]
+                if const_int(other) == 0:
+                    t = self._truth(f[2])
+                    if t is not None and ((f[1][1] == "Eq") != t):
+                        return True
+        return False
+
     def note_empty_fact(self, interp, st, c, truth):
         """records emptiness facts of lists; returns True if the path became infeasible
         (all resident lists of a cache are empty while their length sum was established >= size >= 1)"""
@@ -1038,6 +1065,24 @@ class Models:
                     if st.empty.get(x[1]) == x[2]:
                         return True
                     st.nonempty[x[1]] = x[2]
+        # (*X.tail).prev != X.head is true: the list is non-empty
+        for x, y in ((a, b), (b, a)):
+            if isinstance(x, tuple) and x[0] == "load" and x[1][0] == "H" and x[1][2] in (("prev",), ("next",)) and isinstance(y, tuple) and y[0] == "load":
+                s_, h_ = x[1][1], y
+                if isinstance(s_, tuple) and s_[0] == "load" and s_[1][0] == "H" and s_[1][2][-1:] in (("tail",), ("head",)) \
+                        and h_[1][0] == "H" and h_[1][2][-1:] in (("head",), ("tail",)) and s_[1][1] == h_[1][1] and s_[1][2][:-1] == h_[1][2][:-1]:
+                    if (op == "Ne" and truth) or (op == "Eq" and not truth):
+                        xm = ("H", s_[1][1], s_[1][2][:-1] + ("map",))
+                        st.nonempty[xm] = st.lenver.get(xm, 0)
+        # len(X) >= cap(X) with cap(X) >= 1
+        r = self._len_vs_cap(a, b, op) if op in ("Lt", "Le", "Gt", "Ge", "Eq", "Ne") else None
+        if r is not None:
+            xm, o, ver = r
+            oo = o if truth else {"Eq": "Ne", "Ne": "Eq", "Lt": "Ge", "Ge": "Lt", "Gt": "Le", "Le": "Gt"}[o]
+            if oo in ("Ge", "Eq", "Gt") and ver == st.lenver.get(xm, 0) and self._cap_ge1(st, xm):
+                if st.empty.get(xm) == ver:
+                    return True
+                st.nonempty[xm] = ver
         if Xmap is None:
             return False
         if st.nonempty.get(Xmap) == st.lenver.get(Xmap, 0):
@@ -1253,6 +1298,7 @@ class Models:
         interp.event(st, fr, {"ev": "unwrap", "q": info["q"], "val": o, "known": k, "ln": info["ln"], "bb": info["bb"], "nfacts": len(st.facts),
                               "exp": info.get("exp", False)})
         if k == "None":
+            interp.aborted.append(Path(st.events, ("panic", "unwrap on None"), st.facts, st.variants, st))
             return  # certain panic: path ends
         if k is None:
             st.variants[o] = "Some"
@@ -1324,6 +1370,7 @@ class Models:
         interp.event(st, fr, {"ev": "unwrap", "q": info["q"], "val": o, "known": k, "ln": info["ln"], "bb": info["bb"], "nfacts": len(st.facts),
                               "exp": info.get("exp", False)})
         if k == "Err":
+            interp.aborted.append(Path(st.events, ("panic", "unwrap on Err"), st.facts, st.variants, st))
             return
         if k is None:
             st.variants[o] = "Ok"
@@ -1426,6 +1473,17 @@ class Models:
                 return ("H", s_[1][1], s_[1][2][:-1] + ("map",))
         return None
 
+    def _is_entry(self, st, X, own):
+        """own is known to be an entry (not a sentinel): it was found by a lookup, or it is the LRU/MRU end of a list that is
+        known to be non-empty on this path"""
+        home = self._home_list(own)
+        if not (isinstance(own, tuple) and own[0] == "load"):
+            return True
+        if home is None:
+            return True
+        ver = st.lenver.get(home, 0)
+        return st.nonempty.get(home) == ver
+
     def _node_of_key(self, keysrc):
         """if the key pointer points at the `key` field of a node, that node"""
         if isinstance(keysrc, tuple) and keysrc[0] == "ref":
@@ -1484,7 +1542,7 @@ class Models:
         own = self._node_of_key(ks)
         cid = st.fresh()
         known = st.member.get((X, ks))
-        if known is None and own is not None:
+        if known is None and own is not None and self._is_entry(st, X, own):
             # pruning rule P1 applied to a node's own key: a list member's key is in that list's index (I_list)
             known = True
         if known is None and isinstance(ks, tuple) and ks[0] == "kv":
@@ -1515,6 +1573,11 @@ class Models:
                 if present:
                     s2.member[(X, ks)] = False
                     s2.member.pop(("node", X, ks), None)
+                    if own is not None:
+                        # the evicted end node may be the node of any key we believed present: weaken those facts (kill rule of D7)
+                        for mk in [mk for mk, mv in s2.member.items() if len(mk) == 2 and mk[0] == X and mv is True and mk[1] != ks]:
+                            del s2.member[mk]
+                            s2.member.pop(("node", X, mk[1]), None)
                     # a removal from X invalidates what we knew about other keys being present? no: other keys stay.
                     s2.lenver[X] = s2.lenver.get(X, 0) + 1
                     s2.lencount[X] = s2.lencount.get(X, 0) - 1
@@ -1527,6 +1590,7 @@ class Models:
             elif kind in ("get", "get_mut"):
                 s2.member[(X, ks)] = present
                 if present:
+                    s2.nonempty[X] = s2.lenver.get(X, 0)
                     s2.member[("node", X, ks)] = node
                     tl = ("T", s2.fresh(), ())
                     s2.store[tl] = node
@@ -1536,6 +1600,7 @@ class Models:
             elif kind == "contains_key":
                 s2.member[(X, ks)] = present
                 if present:
+                    s2.nonempty[X] = s2.lenver.get(X, 0)
                     s2.member[("node", X, ks)] = node
                 outs.append((s2, ("const", "bool", "1" if present else "0")))
         return outs
@@ -1584,6 +1649,7 @@ class Models:
         st.member[(X, ks)] = True
         st.lenver[X] = st.lenver.get(X, 0) + 1
         st.lencount[X] = st.lencount.get(X, 0) + 1
+        st.nonempty[X] = st.lenver[X]
         st.roomx.pop(X, None)
         self._slack(st, X, -1)
         return [(st, ("call", cid, info["q"]))]
